@@ -1,5 +1,6 @@
 import WS.Lemmas.HttpLogic
 import WS.Gen.Skeletons
+import WS.Lemmas.RequestLogic
 /-
   C14 — Client handshake: connect iff the reply proves the server accepted this request.
 -/
@@ -50,5 +51,40 @@ theorem dial_checks_as_modelled :
        "forbidden: ck == \"Upgrade\"", "forbidden: ck == \"Connection\"", "forbidden: ck == \"Sec-Websocket-Key\"",
        "forbidden: ck == \"Sec-Websocket-Version\"", "forbidden: ck == \"Sec-Websocket-Extensions\"",
        "forbidden: (ck == \"Sec-Websocket-Protocol\" && len(d.Subprotocols) > 0)"] := by decide +kernel
+
+open WS.RequestLogic
+/-- request_headers: whenever the request is assembled the protocol-owned headers carry the
+    protocol's values — Upgrade: websocket, Connection: Upgrade, the key of this dial, version 13 -/
+theorem request_headers (d : DCfg) (u : Url) (key : Bytes) (caller : Client.Hdr) (host : Bytes) (h : Client.Hdr)
+    (hok : buildRequest d u key caller = .ok (host, h))
+    (hcan : ∀ p ∈ caller, p.1 ≠ strBytes "Upgrade" ∧ p.1 ≠ strBytes "Connection" ∧ p.1 ≠ strBytes "Sec-WebSocket-Key" ∧
+        p.1 ≠ strBytes "Sec-WebSocket-Version" ∧ p.1 ≠ strBytes "Sec-WebSocket-Extensions") :
+    lookup h (strBytes "Upgrade") = some [strBytes "websocket"] ∧
+    lookup h (strBytes "Connection") = some [strBytes "Upgrade"] ∧
+    lookup h (strBytes "Sec-WebSocket-Key") = some [key] ∧
+    lookup h (strBytes "Sec-WebSocket-Version") = some [strBytes "13"] := by
+  first | exact RequestLogic.protocol_headers_present .. | (apply RequestLogic.protocol_headers_present <;> assumption)
+
+/-- the permessage-deflate offer is present exactly when compression is enabled -/
+theorem offer_iff_enabled (d : DCfg) (u : Url) (key : Bytes) (caller : Client.Hdr) (host : Bytes) (h : Client.Hdr)
+    (hok : buildRequest d u key caller = .ok (host, h))
+    (hcan : ∀ p ∈ caller, p.1 ≠ strBytes "Sec-WebSocket-Extensions") :
+    (lookup h (strBytes "Sec-WebSocket-Extensions")).isSome = d.enableCompression := by
+  first | exact RequestLogic.offer_iff_enabled .. | (apply RequestLogic.offer_iff_enabled <;> assumption)
+
+/-- Host comes from the URL unless the caller overrides it -/
+theorem host_from_url_or_override (d : DCfg) (u : Url) (key : Bytes) (caller : Client.Hdr) (host : Bytes) (h : Client.Hdr)
+    (hok : buildRequest d u key caller = .ok (host, h))
+    (hno : ∀ p ∈ caller, canonicalKey p.1 ≠ strBytes "Host") : host = u.host := by
+  first | exact RequestLogic.host_from_url_or_override .. | (apply RequestLogic.host_from_url_or_override <;> assumption)
+
+/-- regression sentinel for F9: every capitalisation of a protocol-owned name canonicalises to the spelling the duplicate check refuses -/
+theorem canonical_catches_rfc_spelling :
+    canonicalKey (strBytes "Sec-WebSocket-Version") = strBytes "Sec-Websocket-Version" ∧
+    canonicalKey (strBytes "UPGRADE") = strBytes "Upgrade" ∧
+    canonicalKey (strBytes "sec-websocket-key") = strBytes "Sec-Websocket-Key" ∧
+    canonicalKey (strBytes "connection") = strBytes "Connection" ∧
+    canonicalKey (strBytes "SEC-WEBSOCKET-EXTENSIONS") = strBytes "Sec-Websocket-Extensions" := by
+  first | exact RequestLogic.canonical_catches_rfc_spelling .. | (apply RequestLogic.canonical_catches_rfc_spelling <;> assumption)
 
 end WS.Props.C14
